@@ -372,7 +372,7 @@ class _function(object):
     
     def value(self):
 
-        val = self._constant
+        val = +self._constant
 
         if self._linear._coeff:
             nval = self._linear.value()     
